@@ -109,7 +109,12 @@ class Multiplication:
     cpy = segment.clone()
     cpy.name = clone_name
     cpy.connect(self)
+    cloned = []
     for l in segment.dovetails + segment.containments:
+      # (an edge from the segment to itself is listed twice)
+      if any(l is l1 for l1 in cloned):
+        continue
+      cloned.append(l)
       lc = l.clone()
       if not gfapy.is_placeholder(lc.name):
         # the identifier of the edge cannot be used again for its copy
@@ -191,7 +196,7 @@ class Multiplication:
       links = self.segment(sn).dovetails_of_end(end_type).copy()
       for l in links:
         l_sig = repr(l.other_end(gfapy.SegmentEnd(sn, end_type)))
-        if l_sig not in to_keep:
+        if l_sig not in to_keep and l.is_connected():
           l.disconnect()
 
   def _segment_and_segment_name(self, segment_or_segment_name):
